@@ -20,3 +20,14 @@ package collectionutils
 //@   modifies pkg:collectionutils
 //@   nopanic
 //@   property C15
+
+// the search for the node to withdraw gives up only at the end of the list: when nothing is removed, the cursor has walked
+// off the last node (every node, the tail -- and the only node of a one-element queue -- included, has been examined);
+// when a node is returned, it is one the predicate accepted... (C15: a cancelled request at the tail of the wait queue
+// is withdrawn like any other; left queued, it is granted at the next release and nobody gives its locks back)
+//@ func (*collectionutils.LinkedList[T]).RemoveFirst
+//@   requires r != nil
+//@   ensures ret == nil ==> local(node) == nil // C15
+// (only this clause is claimed; the predicate is an unknown function value, so nothing is said about the heap)
+//@   modifies all
+//@   alsofor C15
